@@ -641,3 +641,19 @@ def api_close_race(rng, T):
     spec["after"] = [["sleep", 3.0], ["dump"], ["close"]]
     spec["final_wait"] = 8
     return spec
+
+
+def api_reinit(rng, T):
+    """C07 flavour: a first initialize() on the object fails after subunit detection (the receiver goes silent); the receiver then comes back with
+    a different set of subunits and initialize() is called again on the same object"""
+    spec = api_init(rng, T)
+    dev = spec["device"]
+    dev.pop("swallow_first", None)
+    dev["latency"] = rng.choice([0.0, 0.02, 0.06])
+    spec["healthy"] = True
+    optional = [s for s in T["consts"]["subunits"] if s != "SYS"]
+    extra = rng.sample(optional, rng.randint(1, 3))
+    first = {"type": "scripted", "latency": 0.02, "avail": {**dev["avail"], **{s: "Ready" for s in extra}}, "table": {}, "echo_put": True,
+             "silent_after": len(optional) + 3 + rng.randint(0, 6)}
+    spec["first_device"] = first
+    return spec
